@@ -356,9 +356,11 @@ static void dropAllEdges()
     EDGEFOR.clear();
 }
 
+static void dropHeldNodes();
 static void cmd_cleanup(bool keep_edges = false)
 {
     if (!LIB_UP) return;
+    dropHeldNodes();
     if (keep_edges) {
         // the user's edges outlive the library: cleanup must detach them
         dropIters();
@@ -1076,6 +1078,91 @@ static void cmd_term(const std::vector<std::string> &tk)
     } else throw Bad("term kind");
 }
 
+// ---------------------------------------------------------------------
+// C06: node-level histories (unique table + incoming counts + reclamation)
+//   nnew X F L c1 c2 ...   children: names of held nodes, or t<v> for terminals
+//   ndup Y X               another reference to X's node
+//   ndrop X                give the reference up
+// every command prints the number of live nodes and the recorded incoming
+// count of every held node
+// ---------------------------------------------------------------------
+static std::map<std::string, node_handle> NODES;
+static std::string NODEFOREST;
+
+static void nodeObs()
+{
+    forest* F = forestOf(NODEFOREST).F;
+    std::ostringstream s;
+    s << "nobs live=" << F->getCurrentNumNodes();
+    for (auto &p : NODES) {
+        s << " " << p.first << "=";
+        if (p.second > 0) s << F->getNodeInCount(p.second); else s << 0;
+    }
+    emit(s.str());
+}
+
+static void dropHeldNodes()
+{
+    if (NODEFOREST.empty()) return;
+    auto it = FORS.find(NODEFOREST);
+    if (it != FORS.end() && it->second.alive) {
+        for (auto &p : NODES) if (p.second > 0) it->second.F->unlinkNode(p.second);
+    }
+    NODES.clear();
+    NODEFOREST.clear();
+}
+
+static void cmd_nnew(const std::vector<std::string> &tk)
+{
+    if (tk.size() < 5) throw Bad("nnew syntax");
+    if (NODES.count(tk[1])) throw Bad("nnew: name in use");
+    if (!NODEFOREST.empty() && NODEFOREST != tk[2]) throw Bad("node commands use one forest per script");
+    NODEFOREST = tk[2];
+    ForestInfo &fi = forestOf(tk[2]);
+    forest* F = fi.F;
+    int L = atoi(tk[3].c_str());
+    unsigned sz = unsigned(F->getLevelSize(L));
+    if (tk.size() != 4 + sz) throw Bad("nnew: wrong number of children");
+    unpacked_node* nb = unpacked_node::newWritable(F, L, sz, FULL_ONLY);
+    for (unsigned i=0; i<sz; i++) {
+        const std::string &c = tk[4+i];
+        if (c[0] == 't') {
+            long v = atol(c.c_str()+1);
+            if (fi.rt == range_type::BOOLEAN) nb->setFull(i, v ? F->handleForValue(true) : 0);
+            else nb->setFull(i, v ? F->handleForValue(v) : 0);
+        } else {
+            auto it = NODES.find(c);
+            if (it == NODES.end()) throw Bad("nnew: unknown child");
+            nb->setFull(i, F->linkNode(it->second));
+        }
+    }
+    edge_value ev;
+    node_handle h;
+    F->createReducedNode(nb, ev, h);
+    NODES[tk[1]] = h;
+    nodeObs();
+}
+
+static void cmd_ndup(const std::vector<std::string> &tk)
+{
+    if (NODES.count(tk[1])) throw Bad("ndup: name in use");
+    auto it = NODES.find(tk[2]);
+    if (it == NODES.end()) throw Bad("ndup: unknown node");
+    forest* F = forestOf(NODEFOREST).F;
+    NODES[tk[1]] = F->linkNode(it->second);
+    nodeObs();
+}
+
+static void cmd_ndrop(const std::vector<std::string> &tk)
+{
+    auto it = NODES.find(tk[1]);
+    if (it == NODES.end()) throw Bad("ndrop: unknown node");
+    forest* F = forestOf(NODEFOREST).F;
+    F->unlinkNode(it->second);
+    NODES.erase(it);
+    nodeObs();
+}
+
 // edgeval F dbl <hex64> <hex32> | edgeval F int <v> | edgeval F inf
 // forest::getEdgeForValue / getValueForEdge of an edge-valued forest (C19)
 static void cmd_edgeval(const std::vector<std::string> &tk)
@@ -1326,6 +1413,9 @@ static void run(const std::vector<std::string> &tk)
     }
     else if (c == "term") cmd_term(tk);
     else if (c == "edgeval") cmd_edgeval(tk);
+    else if (c == "nnew") cmd_nnew(tk);
+    else if (c == "ndup") cmd_ndup(tk);
+    else if (c == "ndrop") cmd_ndrop(tk);
     else if (c == "mm") cmd_mm(tk);
     else throw Bad("unknown command " + c);
 }
